@@ -226,8 +226,8 @@ func (vc *VC) callCommon(st *State, v *ssa.Call, cc *ssa.CallCommon, args []Term
 			return
 		}
 		var names []string
-		for i, p := range callee.Params {
-			n := p.Name()
+		for i := range callee.Params {
+			n := vc.P.contractParamName(spec, callee, i)
 			if i < len(spec.Params) && spec.Params[i] != "" {
 				n = spec.Params[i]
 			}
@@ -276,8 +276,8 @@ func (vc *VC) callCommon(st *State, v *ssa.Call, cc *ssa.CallCommon, args []Term
 		}
 		if spec != nil && callee != nil {
 			var names []string
-			for _, p := range callee.Params {
-				names = append(names, p.Name())
+			for i := range callee.Params {
+				names = append(names, vc.P.contractParamName(spec, callee, i))
 			}
 			cargs := args[1:]
 			env := map[string]Term{}
